@@ -296,6 +296,7 @@ type analysis struct {
 	l     *loader
 	sums  map[*types.Func]*fsum
 	stack map[*types.Func]bool
+	ro    map[types.Object]bool
 }
 
 type funcAn struct {
@@ -404,6 +405,20 @@ func statelessVar(o types.Object) bool {
 	}
 	return false
 }
+
+// poolVar: a package-level sync.Pool.  What Get hands out is tracked as the region `pooled`
+// (see extModels): it may be used as scratch memory, and it is reported when it can reach a
+// result.  The pool variable itself carries no value a result could depend on.
+func poolVar(o types.Object) bool {
+	t := o.Type()
+	if p, ok := t.(*types.Pointer); ok {
+		t = p.Elem()
+	}
+	n, ok := t.(*types.Named)
+	return ok && n.Obj().Pkg() != nil && n.Obj().Pkg().Path() == "sync" && n.Obj().Name() == "Pool"
+}
+
+var aPooled = atom{kind: "global", name: "pooled-object"}
 
 func globalName(o types.Object) string { return o.Pkg().Name() + "." + o.Name() }
 
@@ -1140,7 +1155,7 @@ func (a *funcAn) rootOf(e ast.Expr) (root types.Object, deref bool) {
 
 func (a *funcAn) noteWrite(region aset, at ast.Node) {
 	for r := range region {
-		if r.kind == "fresh" || r.kind == "nil" || r.kind == "reused" {
+		if r.kind == "fresh" || r.kind == "nil" || r.kind == "reused" || r == aPooled {
 			continue
 		}
 		if debugOrigins && !a.sum.writes[r] {
@@ -1152,7 +1167,7 @@ func (a *funcAn) noteWrite(region aset, at ast.Node) {
 
 func (a *funcAn) noteAppend(region aset, at ast.Node) {
 	for r := range region {
-		if r.kind == "fresh" || r.kind == "nil" || r.kind == "reused" {
+		if r.kind == "fresh" || r.kind == "nil" || r.kind == "reused" || r == aPooled {
 			continue
 		}
 		if debugOrigins && !a.sum.appends[r] {
@@ -1460,7 +1475,7 @@ func (a *funcAn) run() {
 					}
 				}
 			case *ast.Ident:
-				if o := a.obj(s); o != nil && isPkgVar(o) && !statelessVar(o) {
+				if o := a.obj(s); o != nil && isPkgVar(o) && !statelessVar(o) && !poolVar(o) && !a.an.readOnlyVar(o) {
 					a.sum.globals[globalName(o)] = true
 				}
 			case *ast.CallExpr:
@@ -1545,4 +1560,169 @@ func (a *funcAn) callEffects(call *ast.CallExpr) {
 			a.noteAppend(a.modelVal(w, ctx).T, call)
 		}
 	}
+}
+
+// readOnlyVar: an unexported package-level variable that holds no reference to anything but its own
+// bytes (a basic value, or a slice / array of basic values) and that the files of its package only
+// ever READ: every occurrence outside its declaration is the argument of len / cap, of a conversion,
+// of one of the comparing functions of bytes / strings, the spread argument of append, the source of
+// copy, an operand of a comparison, or is indexed / sliced in such a position.  Such a variable is a
+// named constant of a type Go has no constants for (`var magic = []byte("...")`) and is not
+// reported among the globals.  Anything else — an assignment to it or to an element, its address,
+// a method call on it, being handed to any other function, a range with it on the left — leaves it
+// state.
+func (an *analysis) readOnlyVar(o types.Object) bool {
+	if an.ro == nil {
+		an.ro = map[types.Object]bool{}
+	}
+	if v, ok := an.ro[o]; ok {
+		return v
+	}
+	res := an.readOnlyVar1(o)
+	an.ro[o] = res
+	return res
+}
+
+func plainBytes(t types.Type) bool {
+	switch u := t.Underlying().(type) {
+	case *types.Basic:
+		return u.Kind() != types.UnsafePointer
+	case *types.Slice:
+		_, ok := u.Elem().Underlying().(*types.Basic)
+		return ok
+	case *types.Array:
+		_, ok := u.Elem().Underlying().(*types.Basic)
+		return ok
+	}
+	return false
+}
+
+var readingFuncs = map[string]bool{
+	"bytes.Equal": true, "bytes.HasPrefix": true, "bytes.HasSuffix": true, "bytes.Contains": true,
+	"bytes.Index": true, "bytes.Compare": true, "bytes.IndexByte": true, "bytes.Count": true,
+	"strings.HasPrefix": true, "strings.HasSuffix": true, "strings.Contains": true, "strings.Index": true,
+	"strings.EqualFold": true, "strings.Compare": true,
+}
+
+func (an *analysis) readOnlyVar1(o types.Object) bool {
+	if o.Exported() || !plainBytes(o.Type()) || o.Pkg() == nil {
+		return false
+	}
+	lp := an.l.pkgs[o.Pkg().Path()]
+	if lp == nil || lp.info == nil {
+		return false
+	}
+	ok := true
+	for _, f := range lp.files {
+		var stack []ast.Node
+		ast.Inspect(f, func(n ast.Node) bool {
+			if n == nil {
+				stack = stack[:len(stack)-1]
+				return true
+			}
+			stack = append(stack, n)
+			id, isID := n.(*ast.Ident)
+			if !isID || !ok {
+				return true
+			}
+			if lp.info.Defs[id] == o {
+				return true // the declaration
+			}
+			if lp.info.Uses[id] != o {
+				return true
+			}
+			// climb through parentheses, index and slice expressions in which the variable is the operand
+			i := len(stack) - 2
+			var cur ast.Node = id
+			for i >= 0 {
+				switch p := stack[i].(type) {
+				case *ast.ParenExpr:
+					cur = p
+					i--
+					continue
+				case *ast.IndexExpr:
+					if p.X == cur {
+						cur = p
+						i--
+						continue
+					}
+				case *ast.SliceExpr:
+					if p.X == cur {
+						cur = p
+						i--
+						continue
+					}
+				}
+				break
+			}
+			if i < 0 {
+				ok = false
+				return true
+			}
+			switch p := stack[i].(type) {
+			case *ast.CallExpr:
+				if p.Fun == cur {
+					ok = false
+					return true
+				}
+				if tv, isT := lp.info.Types[p.Fun]; isT && tv.IsType() {
+					return true // conversion: string(x), []byte(x) copy
+				}
+				name := ""
+				switch fn := unparen(p.Fun).(type) {
+				case *ast.Ident:
+					if _, isB := lp.info.Uses[fn].(*types.Builtin); isB {
+						name = fn.Name
+					}
+				case *ast.SelectorExpr:
+					if pk, isP := fn.X.(*ast.Ident); isP {
+						if pn, isPN := lp.info.Uses[pk].(*types.PkgName); isPN {
+							name = pn.Imported().Path() + "." + fn.Sel.Name
+						}
+					}
+				}
+				switch {
+				case name == "len" || name == "cap":
+				case name == "append" && len(p.Args) >= 2 && p.Args[0] != cur && p.Ellipsis.IsValid():
+				case name == "copy" && len(p.Args) == 2 && p.Args[1] == cur:
+				case readingFuncs[name]:
+				default:
+					ok = false
+				}
+			case *ast.BinaryExpr:
+				switch p.Op {
+				case token.EQL, token.NEQ, token.LSS, token.LEQ, token.GTR, token.GEQ, token.ADD, token.AND, token.OR, token.XOR, token.SHL, token.SHR, token.SUB, token.MUL, token.QUO, token.REM, token.AND_NOT, token.LAND, token.LOR:
+				default:
+					ok = false
+				}
+			case *ast.ValueSpec, *ast.ReturnStmt, *ast.AssignStmt, *ast.CompositeLit, *ast.KeyValueExpr:
+				// its value is copied somewhere: fine for a basic value (and for an element taken by
+				// an index expression), an alias for a slice
+				if _, basic := o.Type().Underlying().(*types.Basic); !basic {
+					if _, isIdx := cur.(*ast.IndexExpr); !isIdx {
+						ok = false
+					}
+				}
+				if as, isAs := p.(*ast.AssignStmt); isAs {
+					for _, l := range as.Lhs {
+						if l == cur {
+							ok = false
+						}
+					}
+				}
+			case *ast.IfStmt, *ast.SwitchStmt, *ast.CaseClause, *ast.ForStmt:
+			case *ast.RangeStmt:
+				if p.X != cur {
+					ok = false
+				}
+			default:
+				ok = false
+			}
+			return true
+		})
+		if !ok {
+			break
+		}
+	}
+	return ok
 }
